@@ -345,8 +345,9 @@ void mux_link(PhysStream &ps, std::shared_ptr<Link> l, const MuxPolicy &mp, cons
     if (i == n_hdr_pages) ps.data_off.push_back((int64_t)ps.bytes.size());
     bool lastp = (i + 1 == ours.size());
     if (lastp && mp.foreign_mode == 1) while (ti < theirs.size() && ti > 0) { ps.bytes.insert(ps.bytes.end(), theirs[ti].begin(), theirs[ti].end()); ti++; }
+    if (i == 0 && !theirs.empty() && mp.foreign_bos_first) { ps.bytes.insert(ps.bytes.end(), theirs[0].begin(), theirs[0].end()); ti = 1; }
     ps.bytes.insert(ps.bytes.end(), ours[i].begin(), ours[i].end());
-    if (i == 0 && !theirs.empty()) { ps.bytes.insert(ps.bytes.end(), theirs[0].begin(), theirs[0].end()); ti = 1; ps.bytes.insert(ps.bytes.end(), second_bos.begin(), second_bos.end()); }
+    if (i == 0 && !theirs.empty()) { if (!mp.foreign_bos_first) { ps.bytes.insert(ps.bytes.end(), theirs[0].begin(), theirs[0].end()); ti = 1; } ps.bytes.insert(ps.bytes.end(), second_bos.begin(), second_bos.end()); }
     else if (i >= n_hdr_pages && ti < theirs.size() && ti > 0 && (i % 2) == 0 && !lastp) { ps.bytes.insert(ps.bytes.end(), theirs[ti].begin(), theirs[ti].end()); ti++; }
   }
   if (ours.size() == n_hdr_pages) ps.data_off.push_back((int64_t)ps.bytes.size());
